@@ -2,7 +2,7 @@ SPECIFICATION Spec
 CONSTANTS
   Block = 1
   Keys = {"k1", "k2", "k3"}
-  Sizes = {1, 2, 3}
+  Sizes = {0, 1, 2, 3}
   MaxFiles = 4
   MaxMax = 6
   DedupFirst = FALSE
